@@ -27,6 +27,23 @@ def check_complete(rep, facts, rel, rule):
         if cls is None or args_attrs is None:
             raise AnalysisError('no unique item class for expansion mnemonic {}'.format(base))
         role_attr = {op['role']: a for op, a in zip(base_spec['operands'], args_attrs)}
+        # other spellings of the same operand that the 32-bit encoder accepts (alias windows derived from the encoder itself:
+        # lui's unsigned upper range, or any wrap a change adds to an encoder): they produce the same word, so they are eligible too
+        alias_cells = {}
+        try:
+            from ..encsum import all_summaries, derived_operand, canon
+            sm = all_summaries(facts).get(base)
+            if sm is not None:
+                for attr, param in zip(args_attrs, sm.params):
+                    info = derived_operand(sm, param)
+                    if info and info.get('kind', 'int') != 'reg':
+                        cells = [c for c in canon(info['cells']) if c[2] != 0]
+                        if cells:
+                            alias_cells[attr] = cells
+        except AnalysisError:
+            alias_cells = None
+        if alias_cells is None:
+            raise AnalysisError('{}: the accepted spellings of the operands of {} could not be derived from its encoder'.format(cm, base))
         missed = None
         n = 0
         for combo in itertools.product(*doms):
@@ -35,10 +52,17 @@ def check_complete(rep, facts, rel, rule):
             for role, src in mapping.items():
                 tup[role_attr[role]] = src[1] if isinstance(src, tuple) else ops[src]
             spellings = [tup]
-            if base in ('lui',) and tup.get('imm') is not None and tup['imm'] < 0:
-                alt = dict(tup)
-                alt['imm'] = tup['imm'] + (1 << 20)      # documented unsigned spelling of the same 20-bit field
-                spellings.append(alt)
+            for attr, cells in alias_cells.items():
+                cur = tup.get(attr)
+                if not isinstance(cur, int):
+                    continue
+                for c in cells:
+                    lo_, hi_, delta_, step_ = c[0], c[1], c[2], (c[3] if len(c) > 3 else 1)
+                    orig = cur - delta_
+                    if lo_ <= orig <= hi_ and (orig - lo_) % (step_ or 1) == 0:
+                        alt = dict(tup)
+                        alt[attr] = orig          # written as `orig`, encoded exactly like `cur`
+                        spellings.append(alt)
             for t in spellings:
                 n += 1
                 if not any(ru.name == base and ru.holds(t) for ru in rel.rules):
